@@ -289,7 +289,9 @@ def call(ev, name, args, kwargs, lineno, env):
             return ()
         raise Unsupported("np.shape")
     if name == "nan_to_num":
-        raise Unsupported("np.nan_to_num")
+        if kwargs.get("copy", True) is False:
+            raise Unsupported("np.nan_to_num(copy=False)")
+        return m1(lambda x: ite(nan_of(x), 0, val_of(x)) if isinstance(x, NS) else x)
     raise Unsupported("numpy function %s (line %d)" % (name, lineno))
 
 
